@@ -228,7 +228,7 @@ func ruleCode128State(c *Ctx) {
 					}
 				}
 			})
-			c.Check(R, "code128.shouldUseCTable/subject", fn.Pos(), bad == "" && cnt >= 3, "every inspected rune is next[i]", fmt.Sprintf("%d loads; other: %s", cnt, orOK(bad)))
+			c.Check(R, "code128.shouldUseCTable/subject", fn.Pos(), bad == "" && cnt >= 1, "every inspected rune is next[i]", fmt.Sprintf("%d loads; other: %s", cnt, orOK(bad)))
 			// required digits: 2 in set C, else 4
 			fnc1, _ := c.P.ConstInt("code128", "FNC1")
 			bindByNorm(n, fn, "next[i]", "r")
@@ -371,8 +371,18 @@ func ruleCode39Assembly(c *Ctx) {
 		n := NewNormer(c.P)
 		n.BindParams(fn, "content", "includeChecksum", "fullASCII", "color")
 		var gap, pat *ssa.Call
-		for _, call := range callsTo(fn, addBit) {
-			if bits, ok := constBoolList(call.Common().Args[1]); ok {
+		root := fn
+		// the drawing loop may live in an unexported helper
+		for _, site := range c.P.deepCallsTo(root, addBit) {
+			call := site.Ins.(*ssa.Call)
+			if site.Fn != root {
+				if fn != root && fn != site.Fn {
+					c.Undecided(R, "code39.EncodeWithColor/loop", call.Pos(), "bars are appended in more than one helper")
+				}
+				fn = site.Fn
+				c.Fn(c.P.FuncName(fn))
+			}
+			if bits, ok := constBoolList(c.P, call.Common().Args[1]); ok {
 				if bits == "0" {
 					gap = call
 				} else {
@@ -421,7 +431,7 @@ func ruleCode39Assembly(c *Ctx) {
 		term := 0
 		for _, s := range c.P.deepCallsTo(fn, addBit) {
 			call := s.Ins.(*ssa.Call)
-			if bits, ok := constBoolList(call.Common().Args[1]); ok && bits == "1" && len(ab) == 1 && s.Fn == ab[0].Fn {
+			if bits, ok := constBoolList(c.P, call.Common().Args[1]); ok && bits == "1" && len(ab) == 1 && s.Fn == ab[0].Fn {
 				if h := enclosingLoopHeader(ab[0].Ins.Block()); h != nil && h.Succs[1].Dominates(call.Block()) {
 					term++
 				}
